@@ -116,3 +116,7 @@ func (p *Path) SliceAt(s Slice, k *smt.Term) *smt.Term {
 	defer func() { p.NoSafety = saved }()
 	return term(p.arrGet(a, idx, "spec"))
 }
+
+// NewMap allocates an empty map; MapStore sets m[key] = val.
+func (p *Path) NewMap(t types.Type) MapRef { return MapRef{Obj: p.Alloc(&MapVal{})} }
+func (p *Path) MapStore(m MapRef, key, val Val) { p.mapUpdate(nil, m, key, val) }
